@@ -5,7 +5,7 @@ CONSTANTS
   XConnectors = {"custom", "default"}
   XTimeouts = {"none", "short"}
   XVias = {"dial", "stream-last", "stream-first", "unix"}
-  XHosts = {"name", "ip"}
+  XHosts = {"name", "ip", "absent"}
   XStores = {"system", "withCA"}
   XResps = {"success", "refuse", "garbage", "close", "hangup", "wrongid", "stall"}
   XRcs = {2, 10, 1000000}
